@@ -257,7 +257,8 @@ class World:
 
 def _close_mask(a, b, rtol=1e-9, atol=1e-12):
     scale = np.maximum(np.abs(a), np.abs(b))
-    return (np.abs(a - b) <= rtol * scale + atol) & np.isfinite(a)
+    floor = atol * (1 + (float(np.abs(b).max()) if np.size(b) else 0.0))
+    return (np.abs(a - b) <= rtol * scale + floor) & np.isfinite(a)
 
 
 def _close(a, b, rtol=1e-9, atol=1e-12):
